@@ -121,6 +121,20 @@ func main() {
 	addOp(plain(all), true)
 	addOp(plain(all[:9], all[9:17], all[17:]), true)
 	addOp(plain([]int{6, 7}, []int{8, 9}, []int{14, 15}, []int{16, 17}), true)
+	// bit positions that do not follow name order: positions are assigned by first appearance, so an
+	// alternative introduced later can pair a low name on a high bit with a high name on a low bit
+	// (a seeded change to the bitset that lost high bytes when a low bit was set afterwards was missed
+	// while every operation listed its schemes in ascending order)
+	for _, k := range []int{10, 17, 18} {
+		lo, hi := all[:k-8], all[k-8:k]
+		for _, mixed := range [][][]int{
+			{{lo[0], hi[7]}}, {{lo[1], hi[0]}}, {{lo[0], lo[1], hi[3]}}, {{lo[len(lo)-1], hi[7]}, {lo[0], hi[0], hi[7]}}, {{lo[0], hi[7]}, {hi[0], hi[1]}, {lo[1]}},
+		} {
+			addOp(plain(append([][]int{hi, lo}, mixed...)...), true)
+			addOp(plain(append([][]int{lo, hi}, mixed...)...), true)
+			addOp(plain(append(append([][]int{}, mixed...), hi, lo)...), true)
+		}
+	}
 	addOp(nil, true)                           // security: [] -> anonymous
 	addOp(plain([]int{3}, []int{4, 5}), false) // inherits the global requirement
 	// one operation per kind and mixed kinds
@@ -198,9 +212,7 @@ func verifOutcome(v string) error {
 	fmt.Fprintf(&sb, "const VerifSpecJSON = %q\n", string(ob))
 	sc.Write("api/verif_glue.go", []byte(sb.String()))
 	sc.CopyDriver("c09", "driver")
-	if err := sc.Build("driver", "driver.bin"); err != nil {
-		vf.Fatal("%v", err)
-	}
+	sc.BuildChecked(r, "driver", "driver.bin")
 	var args []string
 	if r.Replay != "" {
 		var c struct {
